@@ -68,6 +68,20 @@ def rules(t):
             avoid = {br["t_edge"], sec[0]["f_edge"]}
             reach = reachable_avoiding(h, 0, avoid)
             if any(b in reach for b in grow_bbs): r.bad("dom", s, "pending insertion reachable on the secure path without a host-list hit")
+        # membership is decided by equality of whole socket addresses (ip AND port) against self.public_addresses
+        cl = [g for g in t.fns(r"^renetcode::server::NetcodeServer::handle_connection_request::\{closure")]
+        cmp_sock = cmp_other = 0
+        for g in cl:
+            for c in t.sites(g):
+                n = c.node
+                if n["k"] != "call": continue
+                nm, sub = callee_name(n), n.get("substs") or ""
+                if method_of(nm) in ("contains", "eq", "ne") and ("PartialEq" in nm or "contains" in nm):
+                    if "std::net::SocketAddr" in sub or "SocketAddr as" in nm or "SocketAddr::eq" in nm: cmp_sock += 1
+                    elif "IpAddr" in sub or "IpAddr" in nm or "u16" in sub: cmp_other += 1
+        uses_public = any("public_addresses" in fmt(t.stored(t.closure_creator(g))) for g in cl if t.closure_creator(g) is not None) or any("public_addresses" in fmt(t.arg(c, 0)) for g in cl for c in t.sites(g) if c.node["k"] == "call" and c.node["args"])
+        if not uses_public: r.bad("host-list-src", s, "host-list test does not consult self.public_addresses")
+        if cmp_sock == 0 or cmp_other > 0: r.bad("host-list-eq", s, "host-list membership is not decided by equality of whole SocketAddr values (ip and port): a token issued for another port / instance on the same IP is accepted")
     out.append(r)
 
     r = RuleResult("C05.a6", "token-to-address binding: find_or_add_connect_token_entry(addr, mac of data) true-edge dominates insertion", floor=1)
@@ -149,4 +163,38 @@ def rules(t):
     if not list(t.effects("pending_clients", {"retain"}, u)): r.bad("retain", None, "no retain() dropping disconnected pending sessions")
     out.append(r)
     out.append(shared.aad_rule(t, "C05.f", "token"))
+    # g: token reuse table: every stored entry is compared with the presented token's MAC
+    r = RuleResult("C05.g", "token-reuse table: every occupied entry is compared with the presented token's MAC (no entry is skipped depending on other per-entry state); a match decides by address equality", floor=2)
+    fa = t.fn("NetcodeServer::find_or_add_connect_token_entry")
+    scope = [fa] + [g for g in t.fns(r"^renetcode::server::") if g.path.startswith(fa.path + "::{closure") or (t.closure_creator(g) is not None and t.closure_creator(g).fn is fa)]
+    helpers = [c for c in t.sites(fa) if c.node["k"] == "call" and (c.node.get("resolved") or "").startswith("renetcode::server::") and "connect_token" in (c.node.get("resolved") or "")]
+    for h in helpers:
+        try: scope.append(t.fn(h.node["resolved"].split("::<")[0]))
+        except Exception: pass
+    found = False
+    for g in scope:
+        for c in t.sites(g):
+            n = c.node
+            if n["k"] != "call" or method_of(callee_name(n)) not in ("eq", "ne") or len(n["args"]) != 2: continue
+            a0, a1 = fmt(t.arg(c, 0)), fmt(t.arg(c, 1))
+            if not (a0.endswith(".mac") or ".mac" in a0[-12:]) or not (a1.endswith(".mac") or ".mac" in a1[-12:]): continue
+            found = True; r.site(c, "mac comparison")
+            lp = innermost_loop(g, c.bb)
+            if lp is None:
+                if g is fa: r.bad("mac-not-in-scan", c, "MAC comparison is not inside the scan over the entry table")
+                else:
+                    ok, w = must_pass(g, (0, -1), {pos(c)})
+                    if not ok: r.bad("mac-conditional", c, "inside the per-entry closure the MAC comparison is skipped on some path")
+                continue
+            # the arm of the iteration that holds an occupied entry: switch on the element's discriminant inside the loop
+            arms = [br for br in t.branches(g) if br["kind"] == "discr" and br["bb"] in lp[1] and re.search(r"as Some\.0(\.1)?$", fmt(br["on"])) and 1 in br["targets"] and g.dominates(br["bb"], c.bb)]
+            start = (arms[-1]["bb"], len(g.blocks[arms[-1]["bb"]]["stmts"])) if arms else (lp[0], len(g.blocks[lp[0]]["stmts"]))
+            avoid = {(arms[-1]["bb"], x) for v, x in arms[-1]["targets"].items() if v != 1} | ({(arms[-1]["bb"], arms[-1]["otherwise"])} if arms else set()) if arms else set()
+            ok, w = must_pass(g, start, {pos(c)}, stops={(lp[0], 0)}, avoid_edges=avoid)
+            if not ok: r.bad("mac-skipped", c, "an occupied entry can pass through the scan without being compared with the presented MAC: a token already used from another address is not recognised for that entry")
+    if not found: r.bad("mac-missing", None, "no comparison of stored MAC and presented MAC found")
+    adr = [c for g in scope for c in t.sites(g) if c.node["k"] == "call" and method_of(callee_name(c.node)) in ("eq", "ne") and "address" in fmt(t.arg(c, 0))[-10:] and "address" in fmt(t.arg(c, 1))[-10:]]
+    for c in adr: r.site(c, "address decision")
+    if not adr: r.bad("addr-missing", None, "a MAC match is not decided by comparing the stored and the presenting address")
+    out.append(r)
     return out
